@@ -1,12 +1,21 @@
 #!/usr/bin/env python3
 """C03 - core language constructs render according to the documented semantics (DESIGN.md §3 C03).
 
-The reference interpreter (coq/theories/Lang/Interp.v, extracted) is the property's oracle: the engine
-must render every generated core-fragment program exactly as the interpreter does."""
+Three artefacts are tied together on every run, on the same generated programs:
+  * the reference interpreter (coq/theories/Lang/Interp.v, extracted) - the property's oracle: the engine
+    must render every generated core-fragment program exactly as the interpreter does;
+  * the model compiler (coq/theories/L2/Compile.v, extracted runner c03-compile): its instruction stream
+    must be the stream the real compiler emits for the same program, opcode by opcode including jump
+    targets and constants (the sufficient link that lets compile_expr_correct / compile_stmts_correct /
+    compile_correct_partial speak about the real code);
+  * the model VM (coq/theories/L2/Vm.v, runner c03-vm) on the model stream: three-way agreement
+    VM = interpreter = engine, also on what the simulation proof does not cover (loops, macros, calls).
+A stream mismatch where rendering still agrees (also under extra contexts) and C05's verified checker
+accepts the real stream is a harmless codegen rewrite: reported (`stream_mismatch`), not a violation."""
 import os, sys, collections
 sys.path.insert(0, os.path.dirname(os.path.dirname(os.path.abspath(__file__))))
 from vlib import *
-import proggen, langenc
+import proggen, langenc, absinstr
 
 
 def expect(r):
@@ -37,11 +46,219 @@ def kinds_in(body, acc):
             kinds_in(b, acc)
 
 
+# ================================================================================================
+# L2: the parser's view of a proggen AST (what the real compiler is given for the printed source)
+# ================================================================================================
+def pv_expr(e):
+    t = e[0]
+    if t == "int":          # `-3` is parsed as Neg(Const 3)
+        return e if e[1] >= 0 else ("neg", ("int", -e[1]))
+    if t in ("str", "bool", "none", "var"):
+        return e
+    if t == "list": return ("list", [pv_expr(x) for x in e[1]])
+    if t in ("neg", "not"): return (t, pv_expr(e[1]))
+    if t == "bin": return ("bin", e[1], pv_expr(e[2]), pv_expr(e[3]))
+    if t == "cmp": return ("cmp", pv_expr(e[1]), [(o, pv_expr(r)) for o, r in e[2]])
+    if t in ("and", "or"): return (t, pv_expr(e[1]), pv_expr(e[2]))
+    if t == "ifexpr": return ("ifexpr", pv_expr(e[1]), pv_expr(e[2]), None if e[3] is None else pv_expr(e[3]))
+    if t == "item": return ("item", pv_expr(e[1]), pv_expr(e[2]))
+    if t == "attr": return ("attr", pv_expr(e[1]), e[2])
+    if t == "filter": return ("filter", e[1], pv_expr(e[2]), [pv_expr(a) for a in e[3]])
+    if t == "test": return ("test", e[1], pv_expr(e[2]), [pv_expr(a) for a in e[3]], e[4])
+    if t == "call": return ("call", e[1], [pv_expr(a) for a in e[2]], [(k, pv_expr(v)) for k, v in e[3]])
+    raise ValueError(t)
+
+
+def pv_body(b):
+    out = []
+    for s in b:
+        s = pv_stmt(s)
+        if s[0] == "raw":       # adjacent template data is one EmitRaw, empty data none
+            if s[1] == "":
+                continue
+            if out and out[-1][0] == "raw":
+                out[-1] = ("raw", out[-1][1] + s[1])
+                continue
+        out.append(s)
+    return out
+
+
+def pv_stmt(s):
+    t = s[0]
+    if t == "raw": return s
+    if t == "emit": return ("emit", pv_expr(s[1]))
+    if t == "if": return ("if", [(pv_expr(c), pv_body(b)) for c, b in s[1]], None if s[2] is None else pv_body(s[2]))
+    if t == "for": return ("for", s[1], pv_expr(s[2]), None if s[3] is None else pv_expr(s[3]), pv_body(s[4]),
+                           None if s[5] is None else pv_body(s[5]), s[6])
+    if t == "set": return ("set", s[1], pv_expr(s[2]))
+    if t == "setblock": return ("setblock", s[1], pv_body(s[2]), s[3])
+    if t == "with": return ("with", [(n, pv_expr(e)) for n, e in s[1]], pv_body(s[2]))
+    if t == "macro": return ("macro", s[1], s[2], [(p, pv_expr(d)) for p, d in s[3]], pv_body(s[4]))
+    if t == "callblock": return ("callblock", s[1], [pv_expr(a) for a in s[2]], pv_body(s[3]))
+    if t == "filterblock": return ("filterblock", s[1], pv_body(s[2]))
+    if t == "autoescape": return ("autoescape", pv_expr(s[1]), pv_body(s[2]))
+    if t in ("break", "continue"): return s
+    raise ValueError(t)
+
+
+# ================================================================================================
+# L2: canonical form of instruction streams (model: integers of the c03-compile runner; real: JSON)
+# ================================================================================================
+REV_FILTERS = {v: k for k, v in langenc.FILTERS.items()}
+REV_TESTS = {v: k for k, v in langenc.TESTS.items()}
+REV_ATTRS = {v: k for k, v in langenc.ATTRS.items()}
+BINNAMES = ["Add", "Sub", "Mul", "IntDiv", "Rem", "StringConcat"]
+CMPNAMES = ["Eq", "Ne", "Lt", "Lte", "Gt", "Gte", "In", "NotIn"]
+MAX_LOCALS = 50       # instructions.rs
+
+
+def cv(v):
+    """canonical constant from the JSON of a LoadConst (none and both undefineds serialize as null)"""
+    if v is None: return ("null",)
+    if isinstance(v, bool): return ("b", v)
+    if isinstance(v, int): return ("i", v)
+    if isinstance(v, str): return ("s", v)
+    if isinstance(v, list): return ("l", tuple(cv(x) for x in v))
+    if isinstance(v, dict): return ("m", tuple(sorted((k, cv(x)) for k, x in v.items())))
+    return ("?", json.dumps(v))
+
+
+def dec_value(a, i):
+    t = a[i]
+    if t in (0, 7, 1): return ("null",), i + 1
+    if t == 2: return ("b", a[i + 1] != 0), i + 2
+    if t == 3: return ("i", a[i + 1]), i + 2
+    if t == 4:
+        n = a[i + 1]
+        return ("s", "".join(chr(c) for c in a[i + 2:i + 2 + n])), i + 2 + n
+    if t == 5:
+        n = a[i + 1]; i += 2; out = []
+        for _ in range(n):
+            v, i = dec_value(a, i); out.append(v)
+        return ("l", tuple(out)), i
+    return ("?", t), i + 1
+
+
+def sort_enclose(s):
+    """find_macro_closure returns a HashSet: the order within a run of Enclose instructions is arbitrary"""
+    out = []; i = 0
+    while i < len(s):
+        if s[i][0] == "Enclose":
+            j = i
+            while j < len(s) and s[j][0] == "Enclose": j += 1
+            out.extend(sorted(s[i:j])); i = j
+        else:
+            out.append(s[i]); i += 1
+    return out
+
+
+def model_stream(line, N):
+    """canonical tuples from the output of the c03-compile runner ([0; n; (opcode; k; a1..ak)*]).
+    The LocalId of ApplyFilter / PerformTest is recomputed here as codegen.rs::get_local_id does:
+    rank of the first occurrence of the name, in stream order."""
+    if line[:1] != [0]:
+        return None
+    n = line[1]; i = 2; out = []
+    nm = lambda x: N.rev.get(x, "?%d" % x)
+    fseen, tseen = [], []
+
+    def local(seen, name):
+        if name in seen: return seen.index(name)
+        if len(seen) >= MAX_LOCALS: return 255
+        seen.append(name); return len(seen) - 1
+    simple = {5: "GetItem", 14: "Neg", 16: "Not", 20: "Emit", 22: "PushWith", 24: "PushDidNotIterate", 25: "PopFrame",
+              26: "PopLoopFrame", 31: "PushAutoEscape", 32: "PopAutoEscape", 34: "EndCapture", 36: "DupTop",
+              37: "DiscardTop", 38: "Swap", 40: "Return", 41: "IsUndefined", 43: "GetClosure"}
+    onearg = {10: "BuildKwargs", 12: "UnpackList", 21: "PushLoop", 23: "Iterate", 27: "Jump", 28: "JumpIfFalse",
+              29: "JumpIfFalseOrPop", 30: "JumpIfTrueOrPop"}
+    for _ in range(n):
+        op, k = line[i], line[i + 1]; a = line[i + 2:i + 2 + k]; i += 2 + k
+        if op in simple: out.append((simple[op],))
+        elif op in onearg: out.append((onearg[op], a[0]))
+        elif op == 1: out.append(("EmitRaw", "".join(chr(c) for c in a)))
+        elif op == 2: out.append(("StoreLocal", nm(a[0])))
+        elif op == 3: out.append(("Lookup", nm(a[0])))
+        elif op == 4: out.append(("GetAttr", REV_ATTRS.get(a[0], "?attr")))
+        elif op == 6: out.append(("LoadConst", dec_value(a, 0)[0]))
+        elif op == 7: out.append(("LoadConst", ("s", nm(a[0]))))
+        elif op == 8:
+            cnt = a[0]; j = 1; d = {}
+            for _ in range(cnt):
+                key = nm(a[j]); v, j = dec_value(a, j + 1); d[key] = v
+            out.append(("LoadConst", ("m", tuple(sorted(d.items())))))
+        elif op == 9: out.append(("LoadConst", ("l", tuple(("s", nm(x)) for x in a))))
+        elif op == 11: out.append(("BuildList", a[0] if a else None))
+        elif op == 13: out.append((BINNAMES[a[0]],))
+        elif op == 15: out.append((CMPNAMES[a[0]],))
+        elif op == 17: out.append(("CompareAndPreserve", CMPNAMES[a[0]]))
+        elif op == 18:
+            f = REV_FILTERS.get(a[0], "?filter"); out.append(("ApplyFilter", f, a[1], local(fseen, f)))
+        elif op == 19:
+            f = REV_TESTS.get(a[0], "?test"); out.append(("PerformTest", f, a[1], local(tseen, f)))
+        elif op == 33: out.append(("BeginCapture", "Capture"))
+        elif op == 35: out.append(("CallFunction", nm(a[0]), a[1]))
+        elif op == 39: out.append(("BuildMacro", nm(a[0]), a[1], a[2]))
+        elif op == 42: out.append(("Enclose", nm(a[0])))
+        else: out.append(("?op", op))
+    return sort_enclose(out)
+
+
+def real_stream(js):
+    out = []
+    for ins in js:
+        op = ins["op"]; a = ins.get("arg")
+        if op == "LoadConst": out.append((op, cv(a)))
+        elif "arg" not in ins: out.append((op,))
+        elif isinstance(a, list): out.append((op,) + tuple(a))
+        else: out.append((op, a))
+    return sort_enclose(out)
+
+
+def first_diff(a, b):
+    for i in range(max(len(a), len(b))):
+        x = a[i] if i < len(a) else None
+        y = b[i] if i < len(b) else None
+        if x != y:
+            return {"index": i, "model": repr(x), "real": repr(y)}
+    return None
+
+
+def c05_accepts(instrs):
+    """verdict of C05's Coq-verified balance checker on a real stream (with its alternative typings)"""
+    ok, _ = build_models("C05")
+    if not ok:
+        return None
+    try:
+        cases = [absinstr.encode(instrs)] + [absinstr.encode(instrs, t) for t in list(absinstr.typings(instrs))[1:]]
+    except ValueError:
+        return False
+    return any(r[:1] == [1] for r in run_model("C05", "c05", cases))
+
+
+def gen_expr_cases(chk, n):
+    """standalone expressions `{{ e }}` (all four undefined modes, variables that may be undefined)"""
+    out = []
+    modes = ["lenient", "strict", "semistrict", "chainable"]
+    for j in range(n):
+        g = proggen.Gen(chk.rng, {"undefined": 12 if j % 2 else 0}, max_depth=4)
+        ctx, kinds = proggen.default_context(chk.rng)
+        d = 2 + chk.rng.below(3)
+        c = chk.rng.below(5)
+        if c == 0: e = g.int_expr(kinds, d)
+        elif c == 1: e = g.str_expr(kinds, d)
+        elif c == 2: e = ("filter", "length", g.list_expr(kinds, d), [])
+        else: e = g.bool_expr(kinds, d)
+        out.append(([("emit", e)], ctx, modes[j % 4] if j % 3 else "lenient"))
+    return out
+
+
 def main():
     chk = Check("C03", "proof")
     chk.cov["trusted_base"] = TRUSTED_COMMON + ["Print Assumptions of the C03 theorems: see coverage.theorems",
-        "the reference interpreter Lang/Interp.v is the specification (written from the documented semantics); tools/langenc.py + Lang/Codec.v (AST encoding) and tools/proggen.py (source printer) are unverified glue; the parser is covered by rendering the printed source"]
-    chk.assumptions = ["fragment: expressions (arithmetic, comparison chains, and/or/not, in, ~, if-expressions, lists, subscripts, loop.* attributes, filters length/upper/lower/trim/capitalize/string/abs/default, tests defined/undefined/odd/even, range), if/elif/else, for with else / filter / loop variable / break / continue, set, set-block (with filter), with, macros with defaults and keyword arguments, call blocks with caller(), filter blocks; ASCII strings; integers far from the i128 bounds"]
+        "the reference interpreter Lang/Interp.v is the specification (written from the documented semantics); tools/langenc.py + Lang/Codec.v (AST encoding) and tools/proggen.py (source printer) are unverified glue; the parser is covered by rendering the printed source",
+        "L2: coq/theories/L2/Compile.v and L2/Vm.v are hand-written mirrors of codegen.rs and eval_impl; Compile.v is tied to the code by comparing its stream with the real one on every generated program (this file: JSON -> canonical translation, the parser's view of the generated AST - negative literals, merged template data -, LocalId recomputed from the stream, order within Enclose runs ignored, none/undefined constants both `null` in the JSON); Vm.v by the three-way output agreement; the simulation theorems cover the fragment named in compile_correct_partial"]
+    chk.assumptions = ["fragment: expressions (arithmetic, comparison chains, and/or/not, in, ~, if-expressions, lists, subscripts, loop.* attributes, filters length/upper/lower/trim/capitalize/string/abs/default, tests defined/undefined/odd/even, range), if/elif/else, for with else / filter / loop variable / break / continue, set, set-block (with filter), with, macros with defaults and keyword arguments, call blocks with caller(), filter blocks; ASCII strings; integers far from the i128 bounds",
+                       "bytecode level: simulation proved for expressions without calls and for raw/emit/if/set/set-block/with/filter-block/autoescape (successful runs); loops, loop controls, macros, calls, call blocks: stream correspondence + three-way output agreement only"]
     okm, blog = build_models("C03")
     proofs_ok = chk.run_proofs()
     okc, clog = cargo_build(["prog"], release=False)
@@ -50,28 +267,44 @@ def main():
         chk.violation("harness does not build against the current tree", {"theorem_or_correspondence": "build harness/src/bin/prog.rs", "log": (clog + clog2)[-1500:]}, True)
         chk.finish()
     if not okm:
-        chk.violation("model build failed", {"theorem_or_correspondence": "coq/theories/Lang build", "log": blog[-1500:]}, True)
+        chk.violation("model build failed", {"theorem_or_correspondence": "coq/theories/Lang + L2 build", "log": blog[-1500:]}, True)
         chk.finish()
-    progs = []
+    progs = []      # (body, ctx, mode)
     if chk.replay:
         rp = json.load(open(chk.replay))["replay"]
-        progs.append((eval(rp["ast"]), rp["context"]))
+        progs.append((eval(rp["ast"]), rp["context"], rp.get("mode", "lenient")))
+        n_stmt = 1
     else:
         n = 30000 if chk.thorough else 2500
         for j in range(n):
             g = proggen.Gen(chk.rng, {"autoescape": False}, max_depth=2 + chk.rng.below(3))
             ctx, kinds = proggen.default_context(chk.rng)
-            progs.append((g.template(kinds), ctx))
-    reqs, cases = [], []
-    for body, ctx in progs:
-        reqs.append({"templates": {"main": proggen.body_src(body)}, "main": "main", "ctx": ctx, "ops": ["render"]})
-        cases.append(langenc.request(body, ctx)[0])
+            progs.append((g.template(kinds), ctx, "lenient"))
+        # exhaustive small family around what a macro / call-block body can see (closures, scoping)
+        fam = proggen.closure_family() if hasattr(proggen, "closure_family") else []
+        for body, ctx in fam:
+            progs.append((body, ctx, "lenient"))
+        chk.cov["closure_family_cases"] = len(fam)
+        n_stmt = len(progs)
+        progs += gen_expr_cases(chk, 40000 if chk.thorough else 4000)
+    reqs, cases, cases_pv, names = [], [], [], []
+    for body, ctx, mode in progs:
+        reqs.append({"templates": {"main": proggen.body_src(body)}, "main": "main", "ctx": ctx, "undefined": mode,
+                     "ops": ["render", "instructions"]})
+        cases.append(langenc.request(body, ctx, mode=mode)[0])
+        enc, N = langenc.request(pv_body(body), ctx, mode=mode)
+        cases_pv.append(enc); names.append(N)
     model = run_model("C03", "c03", cases)
+    mstreams = run_model("C03", "c03-compile", cases_pv)
+    mvm = run_model("C03", "c03-vm", cases_pv)
     hist = collections.Counter()
     bad = []
     nontriv = set()
+    impl_dbg = None
     for rel in (False, True):
         impl = run_prog(reqs, release=rel)
+        if not rel:
+            impl_dbg = impl
         for i, (r, m) in enumerate(zip(impl, model)):
             e = expect(r)
             if e != m:
@@ -79,37 +312,100 @@ def main():
             if not rel:
                 if e[:1] == [0]:
                     hist["render_ok"] += 1
-                    if e[1] > 0 and count_nodes(progs[i][0]) >= 3:
-                        nontriv.add(reqs[i]["templates"]["main"] + json.dumps(progs[i][1], sort_keys=True))
+                    if e[1] > 0 and (count_nodes(progs[i][0]) >= 3 or i >= n_stmt):
+                        nontriv.add(reqs[i]["templates"]["main"] + json.dumps(progs[i][1], sort_keys=True) + progs[i][2])
                 elif e[:1] == [1]:
                     hist["render_err_" + ERR_NAMES.get(e[1], str(e[1]))] += 1
+    # ---- L2: model VM on the model stream vs interpreter (vs engine: `bad` above) ----
+    vm_bad = [i for i in range(len(progs)) if mvm[i] != model[i]]
+    # ---- L2: model stream vs real stream ----
+    mismatches = []
+    n_instr = 0
+    opc = collections.Counter()
+    for i, r in enumerate(impl_dbg):
+        ins = r.get("instructions")
+        if not ins:
+            hist["not_compiled"] += 1
+            continue
+        rs = real_stream(ins["main"])
+        n_instr += len(rs)
+        for t in rs:
+            opc[t[0]] += 1
+        ms = model_stream(mstreams[i], names[i])
+        d = {"index": -1, "model": "undecodable request", "real": ""} if ms is None else first_diff(ms, rs)
+        if d:
+            mismatches.append((i, d))
+    bad_idx = {i for i, _, _, _ in bad}
+    harmless, harmful = [], []
+    extra_ctx_runs = 0
+    for i, d in mismatches[:60]:
+        body, ctx, mode = progs[i]
+        src = reqs[i]["templates"]["main"]
+        agrees = i not in bad_idx
+        if agrees:
+            # deepen: the same program under more contexts, engine vs interpreter
+            xr, xc = [], []
+            for _ in range(6):
+                c2, _k = proggen.default_context(chk.rng)
+                xr.append({"templates": {"main": src}, "main": "main", "ctx": c2, "undefined": mode, "ops": ["render"]})
+                xc.append(langenc.request(body, c2, mode=mode)[0])
+            xm = run_model("C03", "c03", xc)
+            for rel in (False, True):
+                xi = run_prog(xr, release=rel)
+                extra_ctx_runs += len(xr)
+                for k in range(len(xr)):
+                    if expect(xi[k]) != xm[k]:
+                        agrees = False
+                        bad.append((len(progs), rel, expect(xi[k]), xm[k]))
+                        progs.append((body, xr[k]["ctx"], mode)); reqs.append(xr[k])
+                        break
+                if not agrees:
+                    break
+        acc = c05_accepts(impl_dbg[i]["instructions"]["main"]) if agrees else None
+        entry = {"template": src, "context": ctx, "mode": mode, "first_difference": d, "rendering_agrees": agrees, "c05_checker_accepts": acc}
+        (harmless if (agrees and acc) else harmful).append((i, entry))
+    for i, entry in harmless[:8]:
+        log("STREAM-MISMATCH (harmless: rendering agrees, verified checker accepts):", json.dumps(entry)[:400])
     kinds = collections.Counter()
     sizes = collections.Counter()
-    for body, _ in progs:
+    for body, _, _ in progs[:n_stmt]:
         kinds_in(body, kinds)
         sizes["nodes_%d" % (10 * (min(count_nodes(body), 99) // 10))] += 1
-    # kernel cross-check of the extracted interpreter on a few small programs
-    small = sorted(range(len(cases)), key=lambda i: len(cases[i]))[:12]
+    # kernel cross-check of the extracted interpreter, compiler and VM on a few small programs
+    small = sorted(range(n_stmt), key=lambda i: len(cases[i]))[:12]
     kern = kernel_eval("run", [cases[i] for i in small], "k_C03", imports="Common.Base C03.Runner")
     kern_ok = kern is not None and all(kern[j] == model[small[j]] for j in range(len(small)))
-    chk.cov["evaluations"] = 2 * len(progs)
+    small2 = sorted(range(len(progs) if chk.replay else n_stmt), key=lambda i: len(cases_pv[i]))[:8]
+    kern2 = kernel_eval("(fun l => compile l ++ (-1) :: run_vm_req l)", [cases_pv[i] for i in small2], "k_C03_l2", imports="Common.Base C03.Runner")
+    kern2_ok = kern2 is not None and all(kern2[j] == mstreams[small2[j]] + [-1] + mvm[small2[j]] for j in range(len(small2)))
+    chk.cov["evaluations"] = 2 * len(progs) + extra_ctx_runs
     chk.cov["distinct_nontrivial"] = len(nontriv)
-    chk.cov["rule"] = "typed random core-fragment programs (depth 2-4) x random contexts of ints/strings/bools/lists, rendered by the engine (debug+release) and by the extracted reference interpreter; non-trivial = distinct (program, context) with >= 3 statement nodes rendering to non-empty output without error"
-    chk.cov["samples"] = [reqs[i]["templates"]["main"] for i in (0, len(reqs) // 2, len(reqs) - 1)]
-    chk.cov["distribution"] = {"outcomes": dict(hist), "constructs": dict(kinds), "sizes": dict(sizes)}
+    chk.cov["programs"] = len(progs)
+    chk.cov["rule"] = ("typed random core-fragment programs (depth 2-4) x random contexts of ints/strings/bools/lists, the exhaustive closure/scoping family of tools/proggen.py::closure_family, plus standalone expressions `{{ e }}` (depth 2-4, "
+                       "possibly undefined variables, all four undefined modes); each rendered by the engine (debug+release), by the extracted reference interpreter and by the "
+                       "extracted model VM on the model compiler's stream; each program's real instruction stream compared with the model compiler's; "
+                       "non-trivial = distinct (program, context, mode) rendering to non-empty output without error, programs with >= 3 statement nodes")
+    chk.cov["samples"] = [reqs[i]["templates"]["main"] for i in (0, n_stmt // 2, max(0, n_stmt - 1), len(reqs) - 1)]
+    chk.cov["distribution"] = {"outcomes": dict(hist), "constructs": dict(kinds), "sizes": dict(sizes), "real_opcodes": dict(opc)}
     chk.cov["engine_vs_interpreter_disagreements"] = len(bad)
-    chk.cov["kernel_crosscheck"] = {"cases": len(small), "agree": kern_ok}
+    chk.cov["kernel_crosscheck"] = {"cases": len(small) + len(small2), "agree": bool(kern_ok and kern2_ok)}
+    chk.cov["l2"] = {"streams_compared": len(impl_dbg) - hist["not_compiled"], "instructions_compared": n_instr,
+                     "stream_mismatch": len(mismatches), "stream_mismatch_harmless": len(harmless),
+                     "stream_mismatch_samples": [e for _, e in (harmful + harmless)[:5]],
+                     "vm_vs_interpreter_disagreements": len(vm_bad), "three_way_cases": len(progs),
+                     "expression_cases": len(progs) - n_stmt,
+                     "compared": "opcode, jump targets, constants, names, argument counts, LocalIds (recomputed), loop / macro flags"}
     floor = hist["render_ok"] / max(1, len(progs))
     chk.cov["ok_fraction"] = round(floor, 3)
     seen = set()
     for i, rel, e, m in bad[:40]:
         if len(seen) >= 4:
             break
-        body, ctx = progs[i]
+        body, ctx, mode = progs[i]
         def still(b):
             src = proggen.body_src(b)
-            r = run_prog([{"templates": {"main": src}, "main": "main", "ctx": ctx, "ops": ["render"]}], release=rel)[0]
-            mm = run_model("C03", "c03", [langenc.request(b, ctx)[0]])[0]
+            r = run_prog([{"templates": {"main": src}, "main": "main", "ctx": ctx, "undefined": mode, "ops": ["render"]}], release=rel)[0]
+            mm = run_model("C03", "c03", [langenc.request(b, ctx, mode=mode)[0]])[0]
             ee = expect(r)
             return ee != mm and ee[:1] == e[:1] and mm[:1] == m[:1]
         small_body = proggen.shrink(body, still, budget=150)
@@ -117,16 +413,27 @@ def main():
         if src in seen:
             continue
         seen.add(src)
-        r = run_prog([{"templates": {"main": src}, "main": "main", "ctx": ctx, "ops": ["render"]}], release=rel)[0]
-        mm = run_model("C03", "c03", [langenc.request(small_body, ctx)[0]])[0]
+        r = run_prog([{"templates": {"main": src}, "main": "main", "ctx": ctx, "undefined": mode, "ops": ["render"]}], release=rel)[0]
+        mm = run_model("C03", "c03", [langenc.request(small_body, ctx, mode=mode)[0]])[0]
         chk.violation("engine output differs from the reference semantics",
-                      {"template": src, "context": ctx, "profile": "release" if rel else "debug", "engine": r.get("render", r),
+                      {"template": src, "context": ctx, "mode": mode, "profile": "release" if rel else "debug", "engine": r.get("render", r),
                        "reference": ("".join(chr(c) for c in mm[2:]) if mm[:1] == [0] else mm), "ast": repr(small_body)})
+    for i, entry in harmful[:3]:
+        if entry["rendering_agrees"]:
+            chk.violation("the compiler's instruction stream differs from the model compiler's and the verified balance checker rejects it",
+                          dict(entry, ast=repr(progs[i][0])))
+        elif not chk.violations:
+            chk.violation("the compiler's instruction stream differs from the model compiler's and rendering disagrees with the reference semantics",
+                          dict(entry, ast=repr(progs[i][0])))
+    for i in vm_bad[:2]:
+        chk.violation("model VM on the model compiler's stream disagrees with the reference interpreter (L2 model inconsistent with compile_correct)",
+                      {"theorem_or_correspondence": "c03-vm vs c03", "template": reqs[i]["templates"]["main"], "context": progs[i][1], "mode": progs[i][2],
+                       "vm": mvm[i][:40], "interpreter": model[i][:40], "ast": repr(progs[i][0])}, True)
     if not chk.violations:
         if floor < 0.5 and not chk.replay:
             chk.violation("generator degenerated: fewer than half of the programs render without error", {"theorem_or_correspondence": "tools/proggen.py distribution", "ok_fraction": floor}, True)
-        if not kern_ok:
-            chk.violation("kernel evaluation disagrees with the extracted interpreter", {"theorem_or_correspondence": "vm_compute cross-check of extraction"}, True)
+        if not (kern_ok and kern2_ok):
+            chk.violation("kernel evaluation disagrees with the extracted interpreter / compiler / VM", {"theorem_or_correspondence": "vm_compute cross-check of extraction"}, True)
         if not proofs_ok:
             chk.violation("proof obligations of C03 do not check", {"theorem_or_correspondence": chk.proof["problems"]}, True)
     chk.finish()
